@@ -250,10 +250,14 @@ func (c *Ctx) recoverSupersession() {
 		ok := false
 		pos := posf(c, gen)
 		for _, call := range c.userCalls(fn, m) {
-			pos = posf(c, call)
 			if e, isE := Arg(call, 0).(*ssa.Extract); isE && e.Tuple == gen.Value() && e.Index == idx {
 				ok = true
+				pos = posf(c, call)
+				continue
 			}
+			// the request writes nothing but its own token: putting another value
+			// (an earlier token kept aside) revives a link that a newer mail replaced
+			r.Bad("C05.supersede", name, m+" other value", posf(c, call), "a recovery request stores a "+m[3:]+" that is not the fresh generator output ("+SafeString(Arg(call, 0))+"): a token that was already replaced can become valid again while the one just mailed is not")
 		}
 		r.Check(ok, "C05.supersede", name, m, pos, sprintf("stores result #%d of the fresh GenerateToken", idx), "a new recovery request does not overwrite "+m+" with the fresh generator output")
 	}
